@@ -572,7 +572,43 @@ func argValue(row []val.Val, expr string) val.Val {
 	case "a1", "a2":
 		return row[colIdx(expr)]
 	}
+	if lit, ok := coalesceLiteral(expr); ok {
+		if row[cS].IsNull() {
+			return val.Str(lit)
+		}
+		return row[cS]
+	}
 	return val.Int(1)
+}
+
+// coalesceLits: the second argument of the COALESCE(s, <literal>) argument form
+// (near-duplicate calls of the nested check differ only in this literal).
+var coalesceLits = []string{"'na'", "'NA'", "'Na'", "' na'", "'na '", "\"na\""}
+
+func coalesceLiteral(expr string) (string, bool) {
+	for _, l := range coalesceLits {
+		if expr == "COALESCE(s, "+l+")" {
+			return l[1 : len(l)-1], true
+		}
+	}
+	return "", false
+}
+
+// argInDomain: the argument expression is one the reference evaluates.
+func argInDomain(c anaCase, nested bool) bool {
+	switch c.Arg {
+	case "v", "s", "v + 100":
+		return c.Fn != "COUNT_STAR" && !isIn(c.Fn, rankFns) && !isIn(c.Fn, numberFns)
+	case "":
+		return c.Fn == "COUNT_STAR" || isIn(c.Fn, rankFns) || isIn(c.Fn, numberFns)
+	case "a1", "a2":
+		return nested
+	}
+	if _, ok := coalesceLiteral(c.Arg); ok {
+		// text argument whose order is never consulted
+		return nested && (isIn(c.Fn, valueFns) || isIn(c.Fn, lagFns) || isIn(c.Fn, listFns) || c.Fn == "COUNT")
+	}
+	return false
 }
 
 func buildInput(c anaCase) ref.AnaInput {
@@ -710,7 +746,7 @@ func inDomain(c anaCase) bool {
 	if !rowsInDomain(c.Rows) || c.CPU < 1 || !partitionKeysInDomain(c.Rows, c) {
 		return false
 	}
-	if c.Arg == "a1" || c.Arg == "a2" {
+	if !argInDomain(c, false) {
 		return false
 	}
 	for _, p := range c.Partition {
